@@ -52,6 +52,14 @@ class Orphanage(ElabPass):
         for attr in module.namespace.values():
             self.assert_parentage(module, attr)
 
+        # And for having kept the name it was added under.
+        # (Attributes are looked up and checked by that name, and exported by the one they carry.)
+        for key, attr in module.namespace.items():
+            if attr.name != key:
+                msg = f"{attr} was re-named `{attr.name}` after being added to Module `{module.name}` as `{key}`. "
+                msg += f"Add it again under its new name instead."
+                self.fail(msg)
+
         # Check instance connections, which are not in the module namespace.
         instlike = (
             list(module.instances.values())
